@@ -1127,7 +1127,7 @@ class Lower:
         BOT = 'bot'
         vk = {}
         for nm, i in self.var_ids.items():
-            vk[i] = self.var_decl.get(nm, BOT)
+            vk[i] = self.var_decl.get(nm, ANY if i in getattr(self, 'entry_webs', ()) else BOT)
         declared_vars = {self.var_ids[nm] for nm in self.var_decl}
         ak = {}
         for nm, i in self.arr_ids.items():
@@ -1311,12 +1311,20 @@ class Lower:
                 uses_cond(c[1], env, key, ctr)
 
         def join(e1, e2):
+            if e1 is None:
+                return e2
+            if e2 is None:
+                return e1
             return {x: e1[x] | e2[x] for x in e1}
 
         def walk(s, env, path):
             """returns the environment after s (None if s never falls through)"""
             t = s[0]
             ctr = [0]
+            if env is None:
+                return None         # unreachable code (after a return)
+            if t == 'ret':
+                return None
             if t == 'seq':
                 e1 = walk(s[1], env, path + (1,))
                 return walk(s[2], e1, path + (2,))
@@ -1348,7 +1356,7 @@ class Lower:
                     head = dict(cur)
                     head[s[1]] = d
                     out = walk(s[4], head, path + (4,))
-                    nxt = join(cur, out)
+                    nxt = dict(join(cur, out))
                     nxt[s[1]] = nxt[s[1]] | d
                     if nxt == cur:
                         break
@@ -1449,7 +1457,26 @@ class Lower:
             return s
         body2 = rw(body, ())
         self.var_ids = new_ids
+        # webs that contain the value a variable has on entry (parameters, fields, C garbage): their kind is unknown
+        # (a local read before any assignment is the business of the definite-assignment check, not of the kinds)
+        entry = set(self.entry_var_names())
+        self.entry_webs = {new_ids[nm] for r, nm in web_var.items()
+                           if isinstance(find(r), tuple) and find(r)[0] == 'init' and nm in entry}
         return body2
+
+    def entry_var_names(self):
+        """variables that have a value when the kernel is entered: integer parameters, declared scalars that are
+        parameters, integer fields of the object"""
+        out = []
+        for nm in self.var_ids:
+            base = nm
+            if '~' in base:
+                continue
+            if base in self.spec.get('_params', []) and self.types.get(base) == 'int':
+                out.append(nm)
+            elif base in self.spec.get('types', {}) and self.spec['types'][base] == 'int':
+                out.append(nm)
+        return out
 
     def run(self):
         self.collect_types()
@@ -1549,6 +1576,69 @@ def lean_name(nm):
     return ''.join(ch if ch.isalnum() else '_' for ch in nm)
 
 
+# functions of the .pyx files that are deliberately not translated, with the reason
+NOT_KERNELS = {
+    'topology/minheap.pyx': {'parent': 'arithmetic helper, no array', 'left': 'arithmetic helper, no array',
+                             'right': 'arithmetic helper, no array', 'MinHeap.__cinit__': 'sizes the two vectors (F19); '
+                             'modelled by KHeap.cinit, the sizes are a SPECS entry', 'MinHeap.empty': 'reads self.size only'},
+    'topology/core.pyx': {'get_core_decomposition': 'Python wrapper: check_format, check_square, calls compute_core'},
+    'topology/cliques.pyx': {'count_cliques': 'Python wrapper: core values, argsort, get_dag, calls the kernel'},
+    'topology/triangles.pyx': {'count_triangles': 'Python wrapper', 'get_clustering_coefficient': 'Python wrapper'},
+    'topology/weisfeiler_lehman_core.pyx': {'is_lower': 'comparison of two tuples passed by value, no array'},
+    'ranking/betweenness.pyx': {'Betweenness.__init__': 'stores a flag'},
+    'hierarchy/paris.pyx': {'AggregateGraph.similarity': 'Python dict lookups only',
+                            'AggregateGraph.merge': 'Python dict / set operations only',
+                            'Paris.__init__': 'stores parameters'},
+}
+
+
+def list_functions(tree):
+    """qualified names of all def / cdef functions of a parsed module"""
+    out = []
+
+    def walk(node, prefix):
+        for ch in children(node):
+            if isinstance(ch, (Nodes.DefNode, Nodes.CFuncDefNode)):
+                nm = ch.name if isinstance(ch, Nodes.DefNode) else ch.declarator.base.name
+                out.append(prefix + str(nm))
+                continue
+            if isinstance(ch, Nodes.CClassDefNode):
+                walk(ch, str(ch.class_name) + '.')
+                continue
+            if isinstance(ch, Nodes.PyClassDefNode):
+                walk(ch, str(ch.name) + '.')
+                continue
+            if isinstance(ch, ExprNodes.ExprNode):
+                continue
+            walk(ch, prefix)
+    walk(tree, '')
+    return out
+
+
+def unlisted_functions(repo):
+    """functions of sknetwork/**/*.pyx that are neither translated (SPECS) nor excused (NOT_KERNELS)"""
+    out = []
+    base = os.path.join(repo, 'sknetwork')
+    listed = {}
+    for spec in SPECS:
+        listed.setdefault(spec['file'], set()).add(spec['func'])
+    for d, _, files in os.walk(base):
+        for f in sorted(files):
+            if not f.endswith('.pyx'):
+                continue
+            rel = os.path.relpath(os.path.join(d, f), base)
+            try:
+                tree = parse_from_strings(rel.replace('/', '.'), open(os.path.join(d, f)).read())
+            except Exception as e:  # noqa
+                out.append({'file': rel, 'function': None, 'error': repr(e)})
+                continue
+            for fn in list_functions(tree):
+                if fn in listed.get(rel, set()) or fn in NOT_KERNELS.get(rel, {}):
+                    continue
+                out.append({'file': rel, 'function': fn})
+    return out
+
+
 def translate(repo):
     """Parse and lower all kernels. Returns (kernels, problems)."""
     trees = {}
@@ -1601,10 +1691,12 @@ def describe(kernels):
         out.append(dict(
             name=k['name'], lean=lean_name(k['name']), file=k['file'], func=k['func'], dims=lw.dims,
             params=list(lw.spec.get('_params', [])),
+            entry_vars=lw.entry_var_names(),
             int_params=[p for p in lw.spec.get('_params', []) if lw.types.get(p) == 'int'],
             sites=lw.sites, vars=sorted(lw.var_ids, key=lambda n: lw.var_ids[n]), arrays=arrs,
-            array_info={n: dict(static=lw.arr_info[n]['static'], size=lw.arr_info[n]['size'], float=lw.arr_info[n]['float'])
-                        for n in arrs},
+            array_info={n: dict(static=lw.arr_info[n]['static'], size=lw.arr_info[n]['size'], float=lw.arr_info[n]['float'],
+                                elem=k['aks'][lw.arr_ids[n]]) for n in arrs},
+            var_kinds={n: k['vks'][lw.var_ids[n]] for n in lw.var_ids},
             calls=sorted(set(lw.calls)), prange=lw.prange, notes=lw.notes))
     return out
 
@@ -1636,6 +1728,7 @@ def emit_lean(kernels):
         lines.append('  name := %s' % lean_str(k['name']))
         lines.append('  env := { vars := [%s],\n           arrs := [%s] }' % (', '.join(vkinds), ', '.join(ainfos)))
         lines.append('  body :=\n    %s' % lean_stmt(k['body'], 4))
+        lines.append('  params := [%s]' % ', '.join(str(lw.var_ids[nm]) for nm in lw.entry_var_names()))
         lines.append('  siteNames := [%s]' % ', '.join(lean_str('%s @%d' % (s['text'], s['line'])) for s in lw.sites))
         lines.append('  varNames := [%s]' % ', '.join(lean_str(v) for v in vnames))
         lines.append('  arrNames := [%s]' % ', '.join(lean_str(a) for a in anames))
@@ -1654,7 +1747,7 @@ def generate(repo, lean_dir, json_path=None):
     if not os.path.exists(out) or open(out).read() != text:
         with open(out, 'w') as fh:
             fh.write(text)
-    desc = {'kernels': describe(kernels), 'problems': problems}
+    desc = {'kernels': describe(kernels), 'problems': problems, 'unlisted': unlisted_functions(repo)}
     if json_path:
         os.makedirs(os.path.dirname(json_path), exist_ok=True)
         with open(json_path, 'w') as fh:
